@@ -1,7 +1,7 @@
 import Hive.Proofs.SyncMutexComp3
 /-!
-Invariants of the composed DAGMutex, part 4: RUnlock (unregister all ids, then `RUnlock` one object after
-the other).
+Invariants of the composed DAGMutex, part 4: RUnlock (validate all ids and collect the objects, then `RUnlock`
+one object after the other; the unregistration follows in a second critical section, see part 3).
 -/
 namespace Hive.SyncMutex.Comp
 open Hive.Conc
@@ -98,11 +98,11 @@ theorem count_map_ent (m : Mode) (y : Nat) (xs : List Nat) :
 /-- What `RUnlock(xs...)` finds in its critical section, for a goroutine that holds all of `xs` for reading. -/
 theorem cinv_runlockC {s : CSh} {pre post : List CTh} {t : CTh} (h : CInv s (pre ++ t :: post))
     {xs : List Nat} (hc : t.ctl = .runlockC xs) :
-    ∃ s1, unregAll s xs = some (s1, xs.map t.hobj) ∧
-      (xs = [] → CInv { s1 with dm := false } (pre ++ { t with ctl := .idle, held := eraseAll t.held .r xs } :: post)) ∧
+    lookAll s [] xs = some (xs.map t.hobj) ∧
+      (xs = [] → CInv { s with dm := false } (pre ++ { t with ctl := .runregA xs, held := eraseAll t.held .r xs } :: post)) ∧
       (∀ x xs', xs = x :: xs' →
-        CInv { s1 with dm := false }
-          (pre ++ startInner { t with held := eraseAll t.held .r xs } .runlock 0 (t.hobj x) (.ru (xs'.map t.hobj)) :: post)) := by
+        CInv { s with dm := false }
+          (pre ++ startInner { t with held := eraseAll t.held .r xs } .runlock 0 (t.hobj x) (.ru (xs'.map t.hobj) xs) :: post)) := by
   have hti := h.th t (by simp)
   have hni : isInner t = false := by simp [isInner, hc]
   have hidle := hti.ci hni
@@ -111,21 +111,14 @@ theorem cinv_runlockC {s : CSh} {pre post : List CTh} {t : CTh} (h : CInv s (pre
   obtain ⟨hall, hok⟩ := hsi
   obtain ⟨hnd, hmem⟩ := allHeld_spec xs t.held hti.so hall
   have hent : ∀ x ∈ xs, s.ent x = some (t.hobj x) := fun x hx => hti.tl.t1 (x, .r) (hmem x hx)
-  obtain ⟨s1, e1, u1⟩ := unregAll_spec xs s h.rw hnd (fun x hx => by rw [hent x hx]; simp)
-  have hos : xs.map (fun x => (s.ent x).getD 0) = xs.map t.hobj := by
-    apply List.map_congr_left
-    intro x hx; rw [hent x hx]; rfl
-  rw [hos] at e1
-  refine ⟨s1, e1, ?_, ?_⟩
+  have e1 := lookAll_spec s h.rw t.hobj xs [] hnd (fun _ _ => by simp) hent
+  refine ⟨e1, ?_, ?_⟩
   · -- no ids: nothing happens
     intro hx
     subst hx
-    have : s1 = s := by
-      simp [unregAll] at e1; exact e1.symm
-    subst this
-    have := cinv_ctl h .idle t.script false hni (by simp [isInner])
+    have := cinv_ctl h (.runregA []) t.script false hni (by simp [isInner])
       (by intro k hk; simp only [fDm, hc] at hk; simp only [fDm]; exact dm_release hk)
-      (by simp only [SI]; exact hok)
+      (by simp only [SI]; exact hok) (by simp [unrg, hc])
     simpa [eraseAll] using this
   · intro x xs' hxs
     have hv := (lk_outside_iff hni hidle).mp hti.lk
@@ -172,12 +165,9 @@ theorem cinv_runlockC {s : CSh} {pre post : List CTh} {t : CTh} (h : CInv s (pre
       rw [(hz0 x hxin).1, hxs, List.map_cons, List.count_cons_self, hcnt0] at this
       omega
     have hcWx : cW t (t.hobj x) = 0 := by rw [← hcW]; exact (hz0 x hxin).2
-    refine cinv_assemble h ?_ ?_ ?_ ⟨u1.rw.z, u1.rw.lt, u1.rw.inj⟩ ?_ ?_
+    refine cinv_assemble h ?_ ?_ ?_ ⟨h.rw.z, h.rw.lt, h.rw.inj⟩
+      (fun u _ htl _ => ⟨htl.t1, htl.t2, htl.t3⟩) ?_
     · intro o' hw
-      have : ({ s1 with dm := false } : CSh).heap o' = s.heap o' := by
-        show s1.heap o' = s.heap o'
-        rw [u1.heap]
-      rw [this]
       have hp : proj o' t = proj o' { t with held := eraseAll t.held .r xs } := rfl
       rw [hp] at hw
       apply obj_start (t := { t with held := eraseAll t.held .r xs }) hidle .runlock 0 _ _ o' _ hw
@@ -189,38 +179,25 @@ theorem cinv_runlockC {s : CSh} {pre post : List CTh} {t : CTh} (h : CInv s (pre
       simp only [fDm, startInner]
       exact dm_release hk
     · intro y k hk
-      rw [regc_outside hni] at hk
-      show s1.cnt y = _
-      rw [u1.cnt, hk]
+      have hun : unrg t = [] := by simp [unrg, hc]
+      rw [regc_outside hni, hun] at hk
+      show s.cnt y = _
+      rw [hk]
       have := eraseAll_count (fun h : Nat × Mode => h.1 == y) xs t.held hnd hmem
       rw [count_map_ent] at this
-      simp only [regc, acq, isInner, startInner, restEnts, restPairs]
+      simp only [regc, acq, isInner, startInner, restEnts, restPairs, unrg]
       simp
       omega
-    · intro u _ htl hb
-      apply tl_of_unreferenced htl
-      intro y
-      by_cases hy : y ∈ xs ∧ s.cnt y = 1
-      · left
-        have h1 := hb y
-        have : 0 < regc y t := by
-          rw [regc_outside hni]
-          exact List.countP_pos_iff.mpr ⟨(y, .r), hmem y hy.1, by simp⟩
-        omega
-      · right
-        show s1.ent y = s.ent y
-        rw [u1.ent]
-        simp [hy]
-    · refine ⟨?_, ?_, ?_, ?_, hti.so.eraseAll _ _, ?_⟩
+    · refine ⟨?_, ?_, ?_, ?_, hti.so.eraseAll _ _, ?_, by simpa [unrg, startInner] using hnd⟩
       · intro hi; simp [isInner, startInner] at hi
       · simp [KOk, startInner]
-      · have hpend : pend (startInner { t with held := eraseAll t.held .r xs } .runlock 0 (t.hobj x) (.ru (xs'.map t.hobj)))
+      · have hpend : pend (startInner { t with held := eraseAll t.held .r xs } .runlock 0 (t.hobj x) (.ru (xs'.map t.hobj) xs))
             = xs'.map t.hobj := by simp [pend, startInner]
-        have hin : ∀ o, inA (startInner { t with held := eraseAll t.held .r xs } .runlock 0 (t.hobj x) (.ru (xs'.map t.hobj))) o
+        have hin : ∀ o, inA (startInner { t with held := eraseAll t.held .r xs } .runlock 0 (t.hobj x) (.ru (xs'.map t.hobj) xs)) o
             = (t.hobj x == o) := by intro o; simp [inA, isInner, startInner]
-        have hcR' : ∀ o, cR (startInner { t with held := eraseAll t.held .r xs } .runlock 0 (t.hobj x) (.ru (xs'.map t.hobj))) o
+        have hcR' : ∀ o, cR (startInner { t with held := eraseAll t.held .r xs } .runlock 0 (t.hobj x) (.ru (xs'.map t.hobj) xs)) o
             = cR { t with held := eraseAll t.held .r xs } o := fun _ => rfl
-        have hcW' : ∀ o, cW (startInner { t with held := eraseAll t.held .r xs } .runlock 0 (t.hobj x) (.ru (xs'.map t.hobj))) o
+        have hcW' : ∀ o, cW (startInner { t with held := eraseAll t.held .r xs } .runlock 0 (t.hobj x) (.ru (xs'.map t.hobj) xs)) o
             = cW { t with held := eraseAll t.held .r xs } o := fun _ => rfl
         refine ⟨?_, ?_, ?_, ?_⟩
         · intro o
@@ -262,11 +239,7 @@ theorem cinv_runlockC {s : CSh} {pre post : List CTh} {t : CTh} (h : CInv s (pre
       · simp only [SI, startInner]; exact hok
       · refine ⟨?_, ?_, ?_⟩
         · intro a ha
-          obtain ⟨ha1, ha2⟩ := hrem a ha
-          show s1.ent a.1 = some (t.hobj a.1)
-          rw [u1.ent]
-          simp [ha2]
-          exact hti.tl.t1 a ha1
+          exact hti.tl.t1 a (hrem a ha).1
         · intro ha; simp [acq, startInner] at ha
         · intro p hp; simp [restPairs, startInner] at hp
 
